@@ -526,7 +526,7 @@ package controller
 //@ func (*Controller).scaleNodeGroup(c, nodegroup, nodeGroup) (delta, err)
 //@   requires c != nil && c.Client != nil && c.cloudProvider != nil && groupInv(nodeGroup)
 //@   requires [C05,C06] 0 <= nodeGroup.Opts.SlowNodeRemovalRate && nodeGroup.Opts.SlowNodeRemovalRate <= nodeGroup.Opts.FastNodeRemovalRate && 0 < nodeGroup.Opts.TaintLowerCapacityThresholdPercent && nodeGroup.Opts.TaintLowerCapacityThresholdPercent < nodeGroup.Opts.TaintUpperCapacityThresholdPercent && nodeGroup.Opts.TaintUpperCapacityThresholdPercent < nodeGroup.Opts.ScaleUpThresholdPercent
-//@   modifies Jlen, Jkind, Jname, Jnode, Jok, Jesc, Jnum, Jerr, clock, nTaintOK, nUntaintOK, getSeen, LNb, LNo, LNl, LNby, LPb, LPo, LPl, nScans
+//@   modifies Jlen, Jkind, Jname, Jnode, Jok, Jesc, Jnum, Jerr, clock, nTaintOK, nUntaintOK, getSeen, LNb, LNo, LNl, LNby, LNok, LPb, LPo, LPl, nScans
 //@   ensures nScans == old(nScans) + 1
 //@   ensures forall g2 *NodeGroupState :: allocated(g2) && g2 != nodeGroup && old(groupInv(g2)) ==> groupInv(g2)
 //@   ensures [C19] forall k :: old(Jlen) <= k && k < Jlen && Jkind[k] == C_DELNODE && isNotInGroup(Jerr[k]) ==> isNotInGroup(err)
@@ -551,6 +551,8 @@ package controller
 //@   assert @ScaleUp#2 [C06] maxPercent == max(cpuPercent, memPercent) && scaleOptions.nodesDelta == nodesDelta && nodesDelta >= 1 && (maxPercent <= real(nodeGroup.Opts.ScaleUpThresholdPercent) ==> nodesDelta == 1)
 //@   assert @ScaleUp#2 [C05] maxPercent > real(nodeGroup.Opts.ScaleUpThresholdPercent) && cpuPercent != MAXF && memPercent != MAXF ==> scaleUpD(len(untaintedNodes), cpuPercent, memPercent, nodeGroup.Opts.ScaleUpThresholdPercent) <= nodesDelta && nodesDelta <= max(1, scaleUpD(len(untaintedNodes), cpuPercent, memPercent, nodeGroup.Opts.ScaleUpThresholdPercent))
 //@   assert @TryRemoveTaintedNodes#1 [C06] maxPercent == max(cpuPercent, memPercent) && nodesDelta == 0 && (maxPercent < real(nodeGroup.Opts.TaintLowerCapacityThresholdPercent) ==> nodeGroup.Opts.FastNodeRemovalRate == 0) && (maxPercent >= real(nodeGroup.Opts.TaintLowerCapacityThresholdPercent) && maxPercent < real(nodeGroup.Opts.TaintUpperCapacityThresholdPercent) ==> nodeGroup.Opts.SlowNodeRemovalRate == 0)
+// C05 (from zero): the node size remembered for scaling up from zero is the one observed in this scan
+//@   ensures [C05] err == nil && LNok && len(k8s.listedNodes()) > 0 ==> nodeGroup.cpuCapacity == k8s.rlCPU(k8s.listedNodes()[0].Status.Allocatable) && nodeGroup.memCapacity == k8s.rlMem(k8s.listedNodes()[0].Status.Allocatable)
 //@   ensures [C01] Jlen > old(Jlen) ==> (forall i, j :: 0 <= i && i < len(k8s.listedNodes()) && 0 <= j && j < len(k8s.listedPods()) && k8s.nodeEmptyIn(k8s.listedNodes()[i], nodeGroup.NodeInfoMap) && k8s.listedPods()[j].Spec.NodeName == k8s.listedNodes()[i].Name ==> k8s.isDS(k8s.listedPods()[j]))
 
 // ---------------------------------------------------------------- RunOnce: one scan of all groups
@@ -567,7 +569,7 @@ package controller
 //@ func (*Controller).RunOnce(c) (err)
 //@   requires ctlInv(c)
 //@   requires [C03] forall i, j :: 0 <= i && i < j && j < len(c.Opts.NodeGroups) ==> c.nodeGroups[c.Opts.NodeGroups[i].Name] != c.nodeGroups[c.Opts.NodeGroups[j].Name]
-//@   modifies Jlen, Jkind, Jname, Jnode, Jok, Jesc, Jnum, Jerr, clock, nTaintOK, nUntaintOK, getSeen, LNb, LNo, LNl, LNby, LPb, LPo, LPl, nScans, nBuildFail, c.cloudProvider
+//@   modifies Jlen, Jkind, Jname, Jnode, Jok, Jesc, Jnum, Jerr, clock, nTaintOK, nUntaintOK, getSeen, LNb, LNo, LNl, LNby, LNok, LPb, LPo, LPl, nScans, nBuildFail, c.cloudProvider
 //@   modifies mapvals(c.nodeGroups), allof("[]string")
 //@   ensures [C20] err == nil ==> ctlInv(c)
 //@   ensures [C12,C20] err != nil && nBuildFail == old(nBuildFail) ==> isNotInGroup(err) || isPlainErr(err)
